@@ -60,9 +60,11 @@ func ixDigest(id string) []byte {
 		out[i] = 0xAA
 	}
 	if d.w > 0 {
-		out[0] = byte(0x10 + d.rank) // byte order == rank order
+		// byte order == rank order; digests of one width differ in their LAST byte only (a long common
+		// prefix: the comparison must go all the way), except rank 0, which starts with a zero byte
+		out[d.w-1] = byte(0x10 + d.rank)
 		if d.rank == 0 {
-			out[0] = 0x00 // a digest starting with a zero byte
+			out[0] = 0x00
 		}
 	}
 	return out
